@@ -201,8 +201,16 @@ impl SubCheck for C20 {
                 }
             }
             Some(Some(depth)) => {
-                cli::write_tree(&root, &[("typeshare.toml".into(), file_toml(c).into_bytes())]);
-                let mut d = root.clone();
+                // with the decoy flag the real file sits one level down and a file with other settings further out:
+                // the search has to stop at the nearest one
+                let base = if c.decoy_in_cwd { root.join("inner") } else { root.clone() };
+                std::fs::create_dir_all(&base).unwrap();
+                if c.decoy_in_cwd {
+                    let decoy = "[swift]\nprefix = \"Decoy\"\ndefault_decorators = [\"DecoyProtocol\"]\n[kotlin]\nprefix = \"Decoy\"\npackage = \"decoy.pkg\"\nmodule_name = \"decoymod\"\n[scala]\npackage = \"decoy.pkg\"\nmodule_name = \"decoymod\"\n[go]\npackage = \"decoypkg\"\nuppercase_acronyms = [\"WIDGET\"]\n";
+                    cli::write_tree(&root, &[("typeshare.toml".into(), decoy.as_bytes().to_vec())]);
+                }
+                cli::write_tree(&base, &[("typeshare.toml".into(), file_toml(c).into_bytes())]);
+                let mut d = base.clone();
                 for k in 0..depth {
                     d = d.join(format!("sub{k}"));
                 }
@@ -216,7 +224,7 @@ impl SubCheck for C20 {
         args.push(proj.to_string_lossy().into_owned());
         let both_differ = SETTINGS.iter().any(|s| c.cli.contains_key(*s) && c.file.contains_key(*s) && c.locate.is_some());
         if counting {
-            run.label(&format!("c20/{}/locate={}", lang.short(), match c.locate { None => "no-file".to_string(), Some(None) => if c.decoy_in_cwd { "-c+decoy-in-cwd".to_string() } else { "-c".to_string() }, Some(Some(d)) => format!("ancestor{d}") }));
+            run.label(&format!("c20/{}/locate={}", lang.short(), match c.locate { None => "no-file".to_string(), Some(None) => if c.decoy_in_cwd { "-c+decoy-in-cwd".to_string() } else { "-c".to_string() }, Some(Some(d)) => format!("ancestor{d}{}", if c.decoy_in_cwd { "+outer-decoy" } else { "" }) }));
             if both_differ || matches!(c.locate, Some(Some(_))) {
                 run.nontrivial(hash_of(&(serde_json::to_string(c).unwrap_or_default(),)));
             }
